@@ -50,6 +50,7 @@ BOXES = [
          fields=[F('b.creation_time', 8, cond=V1), F('b.modification_time', 8, cond=V1), F('b.timescale', 4, cond=V1), F('b.duration', 8, cond=V1),
                  F('(b.creation_time as u32)', 4, cond=V0), F('(b.modification_time as u32)', 4, cond=V0), F('b.timescale', 4, cond=V0), F('(b.duration as u32)', 4, cond=V0),
                  F('lang_code_spec(b.language@)', 2, rd='b.language@ == lang_string_spec({dec})'), R(2)],
+         rt_requires='b.language@ == lang_string_spec(lang_code_spec(b.language@))',
          wire='(b.version == 0 ==> b.creation_time <= 0xffff_ffff && b.modification_time <= 0xffff_ffff && b.duration <= 0xffff_ffff)',
          rd='(b.version == 0 ==> b.creation_time <= 0xffff_ffff && b.modification_time <= 0xffff_ffff && b.duration <= 0xffff_ffff)'),
     dict(name='mfhd', ty='MfhdBox', code=0x6d666864, iso='8.8.5 MovieFragmentHeaderBox', versioned=False,
@@ -191,7 +192,57 @@ def contract(bx):
     return '\n'.join(o)
 
 
+def roundtrip(bx):
+    """lemma: the layout predicate holds on the stream obtained by writing the reference bytes (spec-level round trip)"""
+    n, ty, code = bx['name'], bx['ty'], bx['code']
+    fs = bx['fields']
+    o = []
+    o.append('pub proof fn lemma_%s_roundtrip(d: Seq<u8>, p: int, b: %s)' % (n, ty))
+    o.append('    requires 0 <= p, %s_wire(b)%s' % (n, (', ' + bx['rt_requires']) if bx.get('rt_requires') else ''))
+    o.append('    ensures %s_at(wr(d, p, %s_bytes(b)), p, b)' % (n, n))
+    o.append('{')
+    o.append('    broadcast use lemma_be_bytes_len;')
+    o.append('    lemma_%s_pre_len(b);' % n)
+    o.append('    let all = %s_bytes(b);' % n)
+    o.append('    lemma_prefix_refl(all);')
+
+    def by_of(f):
+        if f.kind == 'z':
+            return 'Seq::new(%dnat, |i: int| 0u8)' % f.n
+        if f.val is None:
+            return 'be_bytes(0, %d)' % f.w
+        if f.kind == 'i':
+            return 'be_bytes((%s as u%d) as nat, %d)' % (f.val, f.w * 8, f.w)
+        return 'be_bytes(%s as nat, %d)' % (f.val, f.w)
+    # every prefix pre_k is a prefix of the whole
+    for k in range(len(fs) - 1, -1, -1):
+        f = fs[k]
+        call = 'lemma_prefix_app(%s_pre_%d(b), %s, all);' % (n, k, by_of(f))
+        o.append('    ' + (('if %s { %s }' % (f.cond, call)) if f.cond else call))
+    # FullBox header
+    o.append('    let h = hdr_bytes(%s_len(b) as u64, 0x%08x);' % (n, code))
+    o.append('    assert(%s_pre_0(b) == (h + seq![b.version]) + be_bytes(b.flags as nat, 3)) by { assert(h + (seq![b.version] + be_bytes(b.flags as nat, 3)) =~= (h + seq![b.version]) + be_bytes(b.flags as nat, 3)); }' % n)
+    o.append('    lemma_rd3(d, p, h + seq![b.version], b.flags as nat, all);')
+    o.append('    lemma_prefix_app(h + seq![b.version], be_bytes(b.flags as nat, 3), all);')
+    o.append('    assert((h + seq![b.version])[8] == b.version);')
+    o.append('    lemma_wr_index(d, p, all, 8);')
+    for k, f in enumerate(fs):
+        if f.val is None:
+            continue
+        v = ('(%s as u%d) as nat' % (f.val, f.w * 8)) if f.kind == 'i' else ('%s as nat' % f.val)
+        if f.kind == 'i':
+            o.append('    let x%d = %s; assert(((x%d as u%d) as i%d) == x%d) by(bit_vector);' % (k, f.val, k, f.w * 8, f.w * 8, k))
+        call = 'lemma_rd%d(d, p, %s_pre_%d(b), %s, all);' % (f.w, n, k, v)
+        o.append('    ' + (('if %s { %s }' % (f.cond, call)) if f.cond else call))
+    o.append('}')
+    o.append('')
+    return '\n'.join(o)
+
+
 if __name__ == '__main__':
     what = sys.argv[1]
+    if what == 'roundtrip':
+        print('// GENERATED by tool/gen_layouts.py roundtrip (committed text): spec-level round trip of the fixed-layout boxes.')
+        print('// X_at(wr(d, p, X_bytes(b)), p, b): the decoder\'s layout predicate holds on what the reference encoder writes.')
     for bx in BOXES:
-        print(spec(bx) if what == 'spec' else contract(bx))
+        print(spec(bx) if what == 'spec' else roundtrip(bx) if what == 'roundtrip' else contract(bx))
